@@ -430,8 +430,11 @@ RECURSIVE UEq(_, _)
 UEq(a, b) ==
   /\ a.t = b.t
   /\ CASE a.t = "B" -> a.v = b.v
-       [] a.t = "I" -> ("v" \in DOMAIN a) /\ ("v" \in DOMAIN b) /\ a.v = b.v
-       [] a.t = "F" -> ("m" \in DOMAIN a) /\ ("m" \in DOMAIN b) /\ a.m = b.m /\ a.e = b.e
+       \* numbers beyond the small range are carried as text ("big") / as a bit pattern ("bits")
+       [] a.t = "I" -> IF ("v" \in DOMAIN a) /\ ("v" \in DOMAIN b) THEN a.v = b.v
+                       ELSE ("big" \in DOMAIN a) /\ ("big" \in DOMAIN b) /\ a.big = b.big
+       [] a.t = "F" -> IF ("m" \in DOMAIN a) /\ ("m" \in DOMAIN b) THEN a.m = b.m /\ a.e = b.e
+                       ELSE ("bits" \in DOMAIN a) /\ ("bits" \in DOMAIN b) /\ a.bits = b.bits
        [] a.t = "S" -> a.cp = b.cp
        [] a.t = "A" -> Len(a.items) = Len(b.items)
                        /\ \A i \in 1..Len(a.items) : UEq(a.items[i], b.items[i])
